@@ -441,3 +441,22 @@ End Demux.
 Definition c15_is_answer (r : req) (a : msg) : bool := is_answer r a.
 Definition c15_dgram (max_retries T : N) (qs : list N) (atts : list attempt) : dres * N :=
   dgram_run max_retries T qs atts.
+
+(* ---- the response timer of Transport::run / demux_reply (ms) ----
+   `start` is the instant in ConnState::Active(Some(start)); a reply arriving at
+   time t either restarts the timer or leaves it alone, depending on where
+   demux_reply resets it relative to the ID lookup (T1). *)
+Definition timer_after_reply (known_id : bool) (start t : N) : N :=
+  if timer_reset_requires_known_id then (if known_id then t else start) else t.
+
+(* replies with IDs nobody waits for, arriving at the given times: the time at
+   which the read timeout ends a request that is never answered, if it does
+   within the observed horizon (the check happens when the loop wakes up: after
+   each reply and when the sleep for the remaining time expires) *)
+Fixpoint junk_deadline (timeout start : N) (arrivals : list N) : N :=
+  match arrivals with
+  | [] => start + timeout
+  | t :: rest =>
+      if run_timeout_fires (t - start) timeout then start + timeout   (* fired before this reply *)
+      else junk_deadline timeout (timer_after_reply false start t) rest
+  end.
